@@ -825,7 +825,9 @@ impl World {
                 }
                 if u.unreach < c.unreach {
                     for (pid, _) in r.prs().iter() {
-                        if *pid != r.id && r.prs().get(*pid).unwrap().state == ProgressState::Replicate {
+                        // (a no-op for a probing follower; Replicate falls back to Probe;
+                        // a pending snapshot must stay pending)
+                        if *pid != r.id && r.prs().get(*pid).unwrap().state != ProgressState::Probe {
                             out.push(Action::Unreachable(id, *pid as u8));
                         }
                     }
